@@ -17,13 +17,13 @@ ArchsFrom(todo, arch) ==
     IF todo = {} THEN {arch}
     ELSE UNION {
         LET earlier == {k \in DOMAIN arch : /\ e.type = "file" /\ e.ino # 0
-                                             /\ arch[k].kind \in {"reg", "lnk"} /\ arch[k].ent.ino = e.ino} IN
+                                             /\ arch[k].kind \in {"reg", "lnk"} /\ SameInode(arch[k].ent, e)} IN
         IF earlier = {} THEN ArchsFrom(todo \ {e}, Append(arch, Member(e, KindOf(e), <<>>)))
         ELSE UNION {ArchsFrom(todo \ {e}, Append(arch, Member(e, "lnk", arch[k].name))) : k \in earlier}
         : e \in todo}
 LinkPool == {Pool[i] : i \in 1..8}
 ArchSets == {s \in SUBSET LinkPool : /\ Cardinality(s) \in 2..MaxArch /\ InDomain(s)
-                                     /\ \E a, b \in s : a # b /\ a.type = "file" /\ b.type = "file" /\ a.ino = b.ino}
+                                     /\ \E a, b \in s : a # b /\ a.type = "file" /\ b.type = "file" /\ SameInode(a, b)}
 ArchCases == {[kind |-> "arch", ents |-> <<>>,
                members |-> [k \in DOMAIN a |-> [kind |-> a[k].kind, link |-> a[k].link, ent |-> a[k].ent]]]
               : a \in UNION {ArchsFrom(s, <<>>) : s \in ArchSets}}
